@@ -30,7 +30,10 @@ RULE = ("classes over the serializable fragment (scalars, Enum by name, Array/Se
         "oracle-only; for all of them the serialized form must equal the documented JSON form written down independently; plus "
         "classes with _enable_undefined_value (an Optional field set / explicitly None / Undefined: three states the document "
         "tells apart and the round trip must keep); plus, on the main stream, the round trip through JSON TEXT and "
-        "serialize_field(Class.f, x.f) against the class-level document")
+        "serialize_field(Class.f, x.f) against the class-level document; plus an entry-point stream (oracle-only): classes over every "
+        "collection kind (empty / one / several elements, alone, next to scalars, two collections) - the document must come back "
+        "equal, with fields of the same builtin kind, also through Deserializer(cls).deserialize(doc, direct_trusted_mapping=True), "
+        "and the FastSerializable twin of the class must write the same pure-JSON document (Serializer(x).serialize(), x.serialize())")
 ASSUMPTIONS = [
     "mapper-free (key-renaming mappers: C07); cases with no model line (a few wrappers of not-modelled leaves) are executed on the real code only (oracle-only part of the extras stream)",
     "float(Decimal), Decimal(str), strptime, strftime and the format tests of DateString/TimeString/IPV4/HostName are oracles of the model (tables per case; universally quantified in the theorems); a Decimal that is not a double is in the lossy clause",
@@ -42,7 +45,7 @@ def cases(rng, tier):
     return [c for c in S.gen_cases(rng, tier, 250 if tier == "quick" else 3500) if c["mode"] == "roundtrip"] \
         + S.anyof_optional_cases(random.Random("aopt" + str(rng.getstate()[1][0])), 60 if tier == "quick" else None) \
         + X.directed_cases() + X.gen_cases(rng, 300 if tier == "quick" else 6000) \
-        + X.directed_undef_cases() + X.undef_cases(random.Random("undef" + str(rng.getstate()[1][0])), 100 if tier == "quick" else 2000)
+        + X.entry_cases() + X.directed_undef_cases() + X.undef_cases(random.Random("undef" + str(rng.getstate()[1][0])), 100 if tier == "quick" else 2000)
 
 
 def search_cases(rng, tier):
@@ -53,15 +56,25 @@ def _x(case):
     return case.get("suite") == "extras"
 
 
+def _en(case):
+    return case.get("suite") == "extras-entry"
+
+
 def run_impl(case):
+    if _en(case):
+        return X.run_entry(case)
     return X.run_impl(case) if _x(case) else S.run_impl(case)
 
 
 def line(case, impl):
+    if _en(case):
+        return None
     return X.xline(case, impl) if _x(case) else S.line(case, impl)
 
 
 def tags(case, impl, model):
+    if _en(case):
+        return ["stream:extras-entry", "entry-trusted:" + ("ok" if impl.get("trusted") == "ok" else "raises-or-skipped")]
     if _x(case):
         return ["stream:extras", "extras-model:" + ("line" if impl.get("xline") else "oracle-only")] + \
             (["proved-fragment(xclass_round_trip_partial):" + str((model.get("out") or {}).get("inFrag"))] if impl.get("xline") else []) + (["extras:skipped"] if "skip" in impl else ["extras:" + k for k in impl.get("kinds", [])])
@@ -69,14 +82,18 @@ def tags(case, impl, model):
 
 
 def nontrivial(case):
-    return True if _x(case) else S.nontrivial(case)
+    return True if _x(case) or _en(case) else S.nontrivial(case)
 
 
 def describe(case, impl, model):
+    if _en(case):
+        return {"entry": case, "impl": impl}
     return {"extras": case["fields"], "doc": impl.get("doc"), "equal": impl.get("equal")} if _x(case) else S.describe(case, impl, model)
 
 
 def judge(case, impl, model):
+    if _en(case):
+        return None, X.judge_entry(case, impl)
     if _x(case):
         return X.xcorrespond(case, impl, model), X.judge(case, impl)
     msg = S.correspondence(case, impl, model)
